@@ -21,10 +21,26 @@ func modTimeFsCalc(fs afero.Fs) modTimeCalc {
 // modTimeResolution returns a best-effort guess at the resolution of the file
 // modification time for a given afero.Fs.
 func modTimeResolution(fs afero.Fs) (dur time.Duration, rerr error) {
-	name := ".modtime-resolution"
-	tf, err := fs.OpenFile(name, os.O_CREATE|os.O_TRUNC|os.O_WRONLY, 0666)
-	if err != nil {
-		return 0, err
+	// The scratch file lives next to the objects (it has to: it is their
+	// filesystem that is being measured), so it must never be a file that is
+	// already there: that could be an object.
+	var name string
+	var tf afero.File
+	for i := 0; ; i++ {
+		name = fmt.Sprintf(".modtime-resolution-%d", i)
+		if _, err := fs.Stat(name); err == nil {
+			continue
+		} else if !os.IsNotExist(err) {
+			return 0, err
+		}
+		var err error
+		tf, err = fs.OpenFile(name, os.O_CREATE|os.O_EXCL|os.O_WRONLY, 0666)
+		if os.IsExist(err) {
+			continue
+		} else if err != nil {
+			return 0, err
+		}
+		break
 	}
 	defer fs.Remove(name)
 
